@@ -66,6 +66,7 @@ func main() {
 	// planned programs behind the random ones: every filter chain pattern, every shape of a
 	// chain declared in the dictionary, and the sweeps across the reader's buffer boundary
 	specials := append(prog.ChainSpecials(), prog.BoundarySpecials(e.Thorough)...)
+	specials = append(specials, prog.LimitSpecials(e.Thorough)...)
 	for i := 0; i < n+len(specials); i++ {
 		id := fmt.Sprintf("p%d", i)
 		cfg, plan := plans(e, i, e.Rand)
@@ -105,8 +106,14 @@ func main() {
 			plan = prog.Plan{Batch: map[int]int{8: 10001, 5: 20001}[i], MaxOps: 1, AfterClose: true}
 		}
 		res := prog.Run(e.Rand, cfg, plan)
+		if len(res.Refused) > 0 && res.ErrIdx >= 0 && res.Limits && !res.MayEnd {
+			e.Fail(prog.SigStuck, fmt.Sprintf("after the refused calls %v every call must work as if they had not been made; operation %d fails: %s", res.RefusedText, res.ErrIdx, res.ErrText), res.Describe())
+		}
 		if plan.NoModel {
 			// direct oracle only
+			if len(res.Refused) > 0 && !res.Provoked {
+				e.Fail("unexpected-rejection", fmt.Sprintf("a program of valid operations: refused %v", res.RefusedText), res.Describe())
+			}
 			switch {
 			case res.ErrIdx != -1:
 				e.Count(true, res.CaseLine(), "rejected:"+res.ErrClass)
@@ -129,6 +136,12 @@ func main() {
 			continue
 		}
 		class := fmt.Sprintf("v%d hr=%v seek=%v cipher=%d", cfg.VIdx, cfg.HR, cfg.Seek, cfg.Cipher())
+		if len(res.Refused) > 0 {
+			e.Line("impl.obs", "%s refused %s", id, strings.Trim(fmt.Sprint(res.Refused), "[]"))
+			if !res.Provoked {
+				e.Fail("unexpected-rejection", fmt.Sprintf("a program of valid operations: refused %v", res.RefusedText), res.Describe())
+			}
+		}
 		switch {
 		case res.ErrIdx == -2:
 			e.Line("impl.obs", "%s result err init %s", id, res.ErrClass)
